@@ -22,7 +22,8 @@ ASSUMPTIONS = [
     "observation through data descriptors installed on openpectus.lang.model.ast classes from the harness",
 ]
 REQUIRED = {"start_events": 200, "order_checks": 100, "ws_checks": 5, "append_checks": 3,
-            "macro_invocation_first_line_checks": 100, "cut_macro_cases": 60, "cut_macro_calls_cut_by_end_block": 20}
+            "macro_invocation_first_line_checks": 100, "cut_macro_cases": 60, "cut_macro_calls_cut_by_end_block": 20,
+            "cut_macro_calls_cut_with_their_handler": 15}
 
 SYNC = {"MarkNode", "BlockNode", "CallMacroNode", "InterpreterCommandNode", "EndBlockNode", "EndBlocksNode",
         "SimulateNode", "SimulateOffNode", "NotifyNode", "BatchNode", "BlankNode", "CommentNode"}
@@ -42,6 +43,24 @@ def gen_cut_macro_case(rnd: random.Random):
     start its body at the first line."""
     n = rnd.randint(3, 7)
     body = [f"Mark: q{i}" for i in range(1, n + 1)]
+    if rnd.random() < 0.4:
+        # variant: the call is made by a Watch body inside the Block; the Block's own `End block` (main path) drops
+        # that handler while it is in the middle of the macro body
+        for _ in range(rnd.randint(1, 3)):
+            body.insert(rnd.randint(1, len(body)), f"Wait: {rnd.choice(['0.2', '0.3', '0.5'])}s")
+        lines = ["Base: s", "Macro: M0"] + ["    " + b for b in body]
+        lines += ["Block: bq1", "    Watch: Run Counter >= 0", "        Call macro: M0"]
+        if rnd.random() < 0.5:
+            lines += ["        Call macro: M0"]
+        lines += [f"    Wait: {rnd.choice(['0.2', '0.3', '0.4', '0.6'])}s", "    End block"]
+        lines += ["Mark: c1"]
+        if rnd.random() < 0.3:
+            lines += ["Wait: 0.2s"]
+        lines += ["Call macro: M0", "Mark: c2"]
+        if rnd.random() < 0.4:
+            lines += ["Call macro: M0", "Mark: c3"]
+        return {"text": "\n".join(lines) + "\n", "traj": [0.0] * 400, "append": False, "stratum": "cut_macro",
+                "variant": "handler"}
     use_counter = rnd.random() < 0.6
     if use_counter:
         body.insert(rnd.randint(1, n - 1), "Increment run counter")
@@ -108,6 +127,8 @@ def check_case(case, res: Result):
             n_body = sum(1 for ln in text.split("\n") if ln.startswith("    Mark: q"))
             if "c1" in mk and sum(1 for m_ in mk[:mk.index("c1")] if m_.startswith("q")) < n_body:
                 res.count("cut_macro_calls_cut_by_end_block")   # first call abandoned mid-body, method went on
+                if case.get("variant") == "handler":
+                    res.count("cut_macro_calls_cut_with_their_handler")
         nodes = {id(n): n for n in prog.get_all_nodes()}
         errored = bool(rig.errors)
         err_tick = rig.errors[0][0] if errored else 10 ** 9
@@ -172,10 +193,33 @@ def check_case(case, res: Result):
         # ---- single pass over the trace with incrementally maintained node state
         last_started_idx: dict[int, int] = {}
         started_nodes = 0
+        pending_abort: list = []
+
+        def abandon_calls(w):
+            # the handler of Watch/Alarm w was unregistered in an earlier tick. Calls it still has in progress (End
+            # block aborted it mid-body) will never complete: they are no longer "in progress", transitively through
+            # the called bodies
+            todo = [d for d in w.get_child_nodes(recursive=True) if isinstance(d, p.CallMacroNode)]
+            while todo:
+                d = todo.pop()
+                sd = state(id(d))
+                if sd["started"] and not sd["completed"] and not sd["failed"] and not sd.get("abandoned"):
+                    sd["abandoned"] = True
+                    res.count("macro_calls_abandoned_by_handler_abort")
+                    active_calls[d.macro_name] = active_calls.get(d.macro_name, 0) - 1
+                    if active_calls[d.macro_name] <= 0:
+                        for m_ in macro_defs.get(d.macro_name, []):
+                            todo.extend(c_ for c_ in m_.get_child_nodes(recursive=True)
+                                        if isinstance(c_, p.CallMacroNode))
+
         for ev in trace:
             tick, field, nid, cls, old, new, pid = ev
             if tick > err_tick:
                 break
+            while pending_abort and pending_abort[0][0] < tick:
+                w_tick, w = pending_abort.pop(0)
+                if not registered.get(id(w), False):
+                    abandon_calls(w)
             n = nodes.get(pid)
             if n is None:
                 continue
@@ -198,6 +242,8 @@ def check_case(case, res: Result):
                     V("C02.second_visit_of_started_node", f"node {nid} {cls} visited again while started (tick {tick})", n)
             elif field == "interrupt_registered":
                 registered[pid] = bool(new)
+                if not new and isinstance(n, p.NodeWithChildren):
+                    pending_abort.append((tick, n))      # judged once the tick is over, see abandon_calls
             elif field == "lock_acquired":
                 lock_ok[pid] = bool(new)
             elif field == "block_ended" and new is True:
@@ -206,7 +252,10 @@ def check_case(case, res: Result):
                 ended_blocks.discard(pid)
             elif field in ("completed", "failed"):
                 if field == "completed" and new is True and isinstance(n, p.CallMacroNode):
-                    active_calls[n.macro_name] = active_calls.get(n.macro_name, 0) - 1
+                    if s_n.get("abandoned"):
+                        s_n["abandoned"] = False    # completed after all (already counted as no longer in progress)
+                    else:
+                        active_calls[n.macro_name] = active_calls.get(n.macro_name, 0) - 1
                 if field == "completed" and new is True and not s_n["started"] and in_repeatable(n) \
                         and isinstance(n, (p.UodCommandNode, p.EngineCommandNode)):
                     # completion of a command of the previous invocation arriving after the reset
@@ -235,9 +284,10 @@ def check_case(case, res: Result):
                     if alive:
                         res.count("harmful_in_progress_resets")
                         tainted |= taint_scope(n)
-                    if isinstance(n, p.CallMacroNode):
+                    if isinstance(n, p.CallMacroNode) and not s_n.get("abandoned"):
                         active_calls[n.macro_name] = active_calls.get(n.macro_name, 0) - 1
                 s_n["started"] = False
+                s_n["abandoned"] = False
                 if isinstance(n, p.BlockNode):
                     lock_ok[pid] = False      # a reset Block must take the lock again before its body may run
                 if isinstance(n, p.NodeWithChildren):
@@ -249,9 +299,15 @@ def check_case(case, res: Result):
                 res.count("start_events")
                 started_nodes += 1
                 if isinstance(n, p.CallMacroNode):
+                    s_n["abandoned"] = False
                     c = active_calls[n.macro_name] = active_calls.get(n.macro_name, 0) + 1
                     max_active[n.macro_name] = max(max_active.get(n.macro_name, 0), c)
                     pending_first[n.macro_name] = (nid, tick)   # this invocation has not started a body line yet
+                    if c == 1:
+                        # no other call of this macro in progress: a fresh invocation, its lines start from the top
+                        # again (the first-line rule below checks that it really does)
+                        for m_ in macro_defs.get(n.macro_name, []):
+                            last_started_idx[id(m_)] = -1
                 par = n.parent
                 if par is None:
                     continue
